@@ -68,7 +68,9 @@ def generate(seed, tier):
                         "body": body, "end": end})
         actors.append({"kind": "writer", "name": "W%d" % wi, "txs": txs,
                        "own_process": mrng.random() < 0.5})
-    policy = mrng.choice((["uniform"], ["sticky", 0.5], ["sticky", 0.9], ["sticky", 0.99]))
+    policy = mrng.choice((["uniform"], ["sticky", 0.5], ["sticky", 0.9], ["sticky", 0.99],
+                          ["pct", mrng.randint(1, 3), mrng.choice((300, 1500, 4000))],
+                          ["pct", mrng.randint(1, 3), mrng.choice((300, 1500, 4000))]))
     return {"prop": ID, "seed": seed, "config": cfg.describe(), "storage_kind": storage_kind,
             "actors": actors, "policy": policy, "schedule": None}
 
